@@ -3,6 +3,7 @@
 // mutually checking long-double references.
 #include "mc/mc.hpp"
 #include "mc/exit_trap.hpp"
+#include "mc/purity.hpp"
 #include "harness/gamma_ref.hpp"
 #include "libphysica/Special_Functions.hpp"
 #include <deque>
@@ -290,6 +291,33 @@ static void inverses(unsigned long long& unit)
 	mc::count("distinct_nontrivial", cases);
 }
 
+// ---- call histories over the whole family (the factorial memo is the one piece of state the library documents) ----------------------
+static void histories(unsigned long long& unit)
+{
+	std::vector<mc::PureLetter> L;
+	for(unsigned n : {0u, 5u, 20u, 170u}) L.push_back({"Factorial(" + std::to_string(n) + ")", [n]() { return mc::hexd(Factorial(n)); }});
+	for(auto nk : std::vector<std::pair<int, int>>{{10, 3}, {171, 5}, {400, 200}, {60, 30}}) L.push_back({"Binomial(" + std::to_string(nk.first) + "," + std::to_string(nk.second) + ")", [nk]() { return mc::hexd(Binomial_Coefficient(nk.first, nk.second)); }});
+	for(double x : {1e-9, 0.5, 7.25, 171.5, 1e6}) L.push_back({"GammaLn(" + mc::dec(x) + ")", [x]() { return mc::hexd(GammaLn(x)); }});
+	for(double x : {0.5, 7.25}) L.push_back({"Gamma(" + mc::dec(x) + ")", [x]() { return mc::hexd(Gamma(x)); }});
+	for(auto xa : std::vector<std::pair<double, double>>{{0.3, 2.5}, {3.6, 2.5}, {99.0, 100.0}, {140.0, 120.5}, {0.0, 1.0}, {1e-3, 0.01}})
+	{
+		std::string a = "(" + mc::dec(xa.first) + "," + mc::dec(xa.second) + ")";
+		L.push_back({"GammaP" + a, [xa]() { return mc::hexd(GammaP(xa.first, xa.second)); }});
+		L.push_back({"GammaQ" + a, [xa]() { return mc::hexd(GammaQ(xa.first, xa.second)); }});
+	}
+	L.push_back({"Upper_Incomplete_Gamma(2,3.5)", []() { return mc::hexd(Upper_Incomplete_Gamma(2.0, 3.5)); }});
+	L.push_back({"Lower_Incomplete_Gamma(2,3.5)", []() { return mc::hexd(Lower_Incomplete_Gamma(2.0, 3.5)); }});
+	for(auto pa : std::vector<std::pair<double, double>>{{0.3, 2.5}, {1e-6, 0.7}, {0.999, 40.0}, {0.5, 1.0}})
+	{
+		std::string a = "(" + mc::dec(pa.first) + "," + mc::dec(pa.second) + ")";
+		L.push_back({"Inv_GammaP" + a, [pa]() { return mc::hexd(Inv_GammaP(pa.first, pa.second)); }});
+		L.push_back({"Inv_GammaQ" + a, [pa]() { return mc::hexd(Inv_GammaQ(pa.first, pa.second)); }});
+	}
+	long long t = mc::purity("histories", L, mc::thorough() ? 3 : 2, unit);
+	mc::count("evaluations", t);
+	mc::count("distinct_nontrivial", t);
+}
+
 int main(int argc, char** argv)
 {
 	mc::init(argc, argv);
@@ -302,5 +330,6 @@ int main(int argc, char** argv)
 	gamma_grid(unit);
 	incomplete(unit);
 	inverses(unit);
+	histories(unit);
 	return mc::finish();
 }
